@@ -646,6 +646,44 @@ func fieldsStoredOn(fn *ssa.Function, structName string) map[string][]ssa.Value 
 	return out
 }
 
+// aliasesField: the slice value shares memory with field `name` of the receiver: the field itself,
+// a reslice of it, or an append onto it.
+func aliasesField(v ssa.Value, name string, recv ssa.Value, depth int) bool {
+	if depth > 6 || v == nil {
+		return false
+	}
+	if fr, ok := loadedField(v); ok && fr.Field == name && sameExpr(fr.X, recv) {
+		return true
+	}
+	switch x := v.(type) {
+	case *ssa.Slice:
+		return aliasesField(x.X, name, recv, depth+1)
+	case *ssa.ChangeType:
+		return aliasesField(x.X, name, recv, depth+1)
+	case *ssa.Phi:
+		for _, e := range x.Edges {
+			if aliasesField(e, name, recv, depth+1) {
+				return true
+			}
+		}
+	case *ssa.Call:
+		if b, ok := x.Call.Value.(*ssa.Builtin); ok && b.Name() == "append" && len(x.Call.Args) > 0 {
+			return aliasesField(x.Call.Args[0], name, recv, depth+1)
+		}
+	case *ssa.UnOp:
+		if x.Op == token.MUL {
+			if al, ok := x.X.(*ssa.Alloc); ok {
+				for _, ref := range *al.Referrers() {
+					if st, ok := ref.(*ssa.Store); ok && st.Addr == al && aliasesField(st.Val, name, recv, depth+1) {
+						return true
+					}
+				}
+			}
+		}
+	}
+	return false
+}
+
 func ruleCopies(r *Report) {
 	h := r.Rule("C05.copy", "S", "Buffer.Clone, Commit.Clone and Buffer.Reset cover every field of their struct (padding excepted); clones share no byte or header slice with the original", 13)
 	check := func(fnName_, pkg, typ string, recvIsTarget bool) {
@@ -695,7 +733,7 @@ func ruleCopies(r *Report) {
 			if _, isSlice := f.Type().Underlying().(*types.Slice); isSlice && !recvIsTarget {
 				alias := false
 				for _, v := range vals {
-					if fr, ok := loadedField(v); ok && fr.Field == f.Name() && sameExpr(fr.X, fn.Params[0]) {
+					if aliasesField(v, f.Name(), fn.Params[0], 0) {
 						alias = true
 					}
 				}
